@@ -101,9 +101,9 @@ CMR_ERROR testComplementTotalUnimodularity(
       CMR_CALL( CMRctuComplementRowColumn(cmr, matrix, complementRow, complementColumn, &complemented) );
 
       if (outputFormat == FILEFORMAT_MATRIX_DENSE)
-        CMR_CALL( CMRchrmatPrintDense(cmr, complemented, stdout, '0', false) );
+        CMR_CALL( CMRchrmatPrintDense(cmr, complemented, outputMatrixFile, '0', false) );
       else if (outputFormat == FILEFORMAT_MATRIX_SPARSE)
-        CMR_CALL( CMRchrmatPrintSparse(cmr, complemented, stdout) );
+        CMR_CALL( CMRchrmatPrintSparse(cmr, complemented, outputMatrixFile) );
       else
         assert(false);
   
